@@ -81,7 +81,8 @@ Lemma book_dispatch_body cfg req already s :
      wants_compressed req s = Some c /\
      book (state_of (dispatch_body O cfg req already s)) = (S (st_acq s), st_rel s, Some (c, false), st_recovered s)).
 Proof.
-  unfold dispatch_body. destruct (select_route O (d_table cfg) req) as [[w r]|e].
+  unfold dispatch_body. destruct (cond_panic_hit O cfg req); [now left|].
+  destruct (select_route O (d_table cfg) req) as [[w r]|e].
   - set (enabled := match r_enc r with Some b => b | None => d_encoding cfg end).
     destruct already.
     + left. destruct (extract_parameters O (d_table cfg) w r (rq_path req)); [|reflexivity].
